@@ -30,7 +30,8 @@ ExactlyOnceIfNoStop ==
 AllSuppliedIfNoStop ==
   (returned = "ok" /\ stops = 0) => supplied = Items
 NoWorkAfterStop == ~lateBegin
-ErrorSurfaces == (returned = "ok" /\ stops = 0) => ~raised
+\* (also after a stop request: a task that fails while the pipeline is winding down is still a failure)
+ErrorSurfaces == returned = "ok" => ~raised
 \* processing does not return while an item is still inside a task ("as soon as the items in flight finish")
 NoOrphanWork == (returned = "ok" /\ ~raised) => \A j \in Tasks, i \in Items : began[j][i] = ended[j][i]
 =============================================================================
